@@ -383,6 +383,65 @@ def evalFile (f : DddmpFile) (α : String → Bool) (x : Int) : Bool :=
   | .ok (i2p, levels, _) => evalFileF i2p levels f.nodes α ((f.nvars.getD 0 + 2).toNat) x
   | .error _ => false
 
+/-! ### the same semantics read off the FORMAT (header lines only, none of the loader's tables)
+
+The DDDMP rule for the variable a node line belongs to:
+
+* `.varinfo 3`: the `info` column is the variable's name (one of `.orderedvarnames`);
+* `.varinfo 0`: `info` is the variable's index, an entry `ids[j]`;
+* `.varinfo 1`: `info` is the variable's level in the writer, an entry `permids[j]`;
+  in both cases the name of the `j`-th support variable is `orderedvarnames[permids[j]]`
+  when `.orderedvarnames` is present (it lists ALL variables of the writer by level) and
+  `suppvarnames[j]` otherwise.
+
+(A file with neither list of names has no names: not covered by this reading.) -/
+
+/-- first position of `a` in `l` -/
+def posOf (a : Int) : List Int → Option Nat
+  | [] => none
+  | b :: l => if b = a then some 0 else (posOf a l).map (· + 1)
+
+/-- the name of the `j`-th support variable -/
+def dddmpSuppName (f : DddmpFile) (j : Nat) : Option Tok :=
+  match f.orderedvarnames with
+  | some ov =>
+    match (f.permids.getD [])[j]? with
+    | some k => if 0 ≤ k then ov[k.toNat]? else none
+    | none => none
+  | none =>
+    match f.suppvarnames with
+    | some sv => sv[j]?
+    | none => none
+
+/-- the variable NAME the `info` column of a non-terminal node line stands for -/
+def dddmpNameOf (f : DddmpFile) (info : Tok) : Option Tok :=
+  match f.varinfo, info with
+  | some 3, _ => if (f.orderedvarnames.getD []).contains info then some info else none
+  | some 0, .num i => (posOf i (f.ids.getD [])).bind (dddmpSuppName f)
+  | some 1, .num k => (posOf k (f.permids.getD [])).bind (dddmpSuppName f)
+  | _, _ => none
+
+/-- `evalFileF` with an arbitrary reading `varOf` of the `info` column -/
+def evalNodesF (varOf : Tok → Option Tok) (nodes : List DddmpNode) (α : String → Bool) :
+    Nat → Int → Bool
+  | 0, x => decide (x < 0)
+  | fuel + 1, x =>
+    (decide (x < 0)) ^^
+      (match nodes.find? (fun n => n.u = (x.natAbs : Int)) with
+      | none => false
+      | some n =>
+        if n.info = .str "T" then true else
+          match varOf n.info with
+          | none => false
+          | some var =>
+            if α var.show then evalNodesF varOf nodes α fuel n.thn
+            else evalNodesF varOf nodes α fuel n.els)
+
+/-- value of the (signed) node number `x` of the file under the assignment `α` of the variable
+names, by the DDDMP rule `dddmpNameOf` — the header lines and the node list only -/
+def evalFormat (f : DddmpFile) (α : String → Bool) (x : Int) : Bool :=
+  evalNodesF (dddmpNameOf f) f.nodes α ((f.nvars.getD 0 + 2).toNat) x
+
 /-! ### the one-line encoding used by the driver
 
 fields `key=value`; lists separated by `,`; node lines `u:info:index:then:else`
@@ -441,5 +500,17 @@ def dddmpTruthTable (f : DddmpFile) (names : List String) (x : Int) : Nat :=
       | some k => (a >>> k) % 2 == 1
       | none => false
     if evalFile f α x then acc ||| (1 <<< a) else acc) 0
+
+/-- the same for `evalFormat` -/
+def dddmpFormatTable (f : DddmpFile) (names : List String) (x : Int) : Nat :=
+  (List.range (2 ^ names.length)).foldl (fun acc a =>
+    let α : String → Bool := fun s =>
+      match names.idxOf? s with
+      | some k => (a >>> k) % 2 == 1
+      | none => false
+    if evalFormat f α x then acc ||| (1 <<< a) else acc) 0
+
+/-- the file has names (`.orderedvarnames` or `.suppvarnames`) -/
+def DddmpFile.named (f : DddmpFile) : Bool := f.orderedvarnames.isSome || f.suppvarnames.isSome
 
 end DD
